@@ -19,6 +19,53 @@ def mname(c):
     return p.split("::<")[-1] if False else p.rsplit("::", 1)[-1]
 
 
+def elem_sources(f, b, it, depth=0):
+    """Where the elements of an iterator expression come from, as [(queue, [field names applied on the way])] -- for
+    adaptor trees such as `a.iter_mut().map(|e| &mut e.state).chain(b.iter_mut().map(..))`.  [] when the expression is
+    not (only) made of queue iterators, chain and map."""
+    if depth > 6:
+        return []
+    out = []
+    for alt in phi_alts(it):
+        x = alt
+        while isinstance(x, tuple) and (x[0] in ("ref", "deref") or is_call(x, "core::iter::IntoIterator::into_iter", "core::iter::Iterator::by_ref")):
+            x = x[1] if x[0] in ("ref", "deref") else x[3][0]
+        if is_call(x, "core::iter::Iterator::chain") and len(x[3]) == 2:
+            a = elem_sources(f, b, x[3][0], depth + 1)
+            c = elem_sources(f, b, x[3][1], depth + 1)
+            if not a or not c:
+                return []
+            out += a + c
+            continue
+        if is_call(x, "core::iter::Iterator::map") and len(x[3]) == 2:
+            from .ops import _closure_defs
+            inner = elem_sources(f, b, x[3][0], depth + 1)
+            defs = _closure_defs(x[3][1])
+            if not inner or len(defs) != 1 or defs[0] not in f.bodies:
+                return []
+            cb = f.bodies[defs[0]]
+            if cb.arg_count < 2:
+                return []
+            names = None
+            for ralt in phi_alts(cb.local_term(0)):
+                root, ns = chain(ralt)
+                if root != ("param", cb.param_name(2)):
+                    return []
+                ns = [n for n in ns if not n.startswith("@") and n not in ("0", "#")]
+                if names is not None and names != ns:
+                    return []
+                names = ns
+            out += [(q, pre + (names or [])) for (q, pre) in inner]
+            continue
+        root, names = chain(x, extra=ELEM)
+        hit = [q for q in QUEUES if q in names and _names_of_outbound(x, q)]
+        if len(hit) != 1:
+            return []
+        q = hit[0]
+        out.append((q, [n for n in names[names.index(q) + 1:] if not n.startswith("@") and n not in ("0", "#")]))
+    return out
+
+
 @cached
 def census(f):
     """queue -> {'calls': [(body, call, method, is_mut)], 'elem_stores': [(body, bb, field, value_term, span)]}"""
@@ -53,6 +100,15 @@ def census(f):
                         out[q]["elem_stores"].append((b, bb, rest[-1], b.rvalue_term(rv), s["span"]))
                     else:
                         out[q]["stores"].append((b, bb, b.rvalue_term(rv), s["span"]))
+            if not any(q in names for q in QUEUES):
+                # the element of an adaptor tree over several queues (`for state in a.chain(b).chain(c) { *state = .. }`)
+                r0, n0 = chain(t)
+                if is_call(r0, "core::iter::Iterator::next") and r0[3] and any(_names_of_outbound(r0, q) for q in QUEUES):
+                    tail = [n for n in n0 if not n.startswith("@") and n not in ("0", "#")]
+                    for (q, pre) in elem_sources(f, b, r0[3][0]):
+                        rest = pre + tail
+                        if rest:
+                            out[q]["elem_stores"].append((b, bb, rest[-1], b.rvalue_term(rv), s["span"]))
         # element mutation through a method call on `&mut elem.field` (e.g. entry.state.set_written(..))
         for c in b.calls.values():
             if c.bb not in b.reachable or not c.args:
